@@ -299,6 +299,16 @@ def run(ctx):
     fails = ctx.validate("Dep", "ReadyTrace", "ReadyTrace.cfg", odd[:3], batch=1) if odd else []
     fails += ctx.validate("Dep", "ReadyTrace", "ReadyTrace.cfg", clean, batch=3000)
     ctx.traces = len(executions)
+    # sensitivity self-test of the trace specification: one corrupted field must be rejected
+    good = next((e for e in clean if any(ev.get("e") == "res" and ev.get("r") == 1 for ev in e)), None)
+    if good is not None:
+        bad = [dict(ev, r=0) if ev.get("e") == "res" and ev.get("r") == 1 else ev for ev in good]
+        p = os.path.join(ctx.scratch, "corrupted.ndjson")
+        tracecheck._write(bad, p)
+        v, r = tracecheck.validate_file(ctx.spec("Dep"), "ReadyTrace", "ReadyTrace.cfg", p)
+        ctx.extra["corrupted_trace_rejected"] = not v.accepted
+        if v.accepted:
+            raise tlc.TLCError("self-test: ReadyTrace accepted a history whose 'ready' answer was erased")
     for f in fails:
         ctx.violation("history of the real update_deps is not 'ready exactly once, after the last input': %s"
                       % json.dumps(f.describe()), {"history": f.execution, "detail": f.describe()})
